@@ -44,6 +44,17 @@ CHECKS.update({
                  "discharged by the contract engine; output order and values of differentiate end-to-end are a bounded stand-in"),
     "C06": bounded("compiled evidence(c, obs) against the reference value with observed columns overwritten, result scope, and "
                    "concatenate against stacked operand values"),
+    "C08": bounded("structural predicates against an independent set-based oracle on random (also non-smooth / non-decomposable) circuits, "
+                   "with the 2-safety clauses checked by re-running on permuted / renamed / swapped inputs"),
+    "C09": bounded("operators on generated invalid operands must raise the documented exception; flags, scope and output counts of "
+                   "returned circuits are recomputed by an independent oracle"),
+    "C11": bounded("IntegrateQuery with per-sample variable sets in the three input formats against brute-force marginals of the "
+                   "reference interpreter and against the compiled symbolic integrate; rejection of out-of-scope variables"),
+    "C12": mixed("mixing_weight_factory's shape contract is a discharged obligation; normalisation (Z = 1, non-negativity, finite log "
+                 "values) of the template circuits is a bounded stand-in over template arguments and three parameter states",
+                 "; 'finite in log space' is a floating point statement checked only on the sampled inputs"),
+    "C16": bounded("every region-graph algorithm over small argument spaces: independent validator, structured-decomposability flag "
+                   "vs set definition, dump/load round trip, build_circuit with the three abstractions and with explicit factories"),
     "C07": bounded("compiled conjugate(c) against the conjugate of the reference value (complex and real circuits)"),
 })
 
